@@ -497,6 +497,18 @@ func (e *Env) binary(n EBinary) SV {
 	return nil
 }
 
+func typeNameOf(x Expr) string {
+	switch n := x.(type) {
+	case EIdent:
+		return n.Name
+	case EField:
+		return typeNameOf(n.X) + "." + n.Name
+	case EUnary:
+		return "*" + typeNameOf(n.X)
+	}
+	return ""
+}
+
 func (e *Env) nilEq(v SV) string {
 	switch x := v.(type) {
 	case Sc:
@@ -526,7 +538,9 @@ func (e *Env) quant(n EQuant) SV {
 		sort = n.Sort
 	}
 	inner := e.with(n.Var, Sc{sort, bv})
+	vc.noFacts++
 	body := inner.boolOf(n.Body)
+	vc.noFacts--
 	q := "forall"
 	if !n.All {
 		q = "exists"
@@ -610,8 +624,31 @@ func (e *Env) call(n ECall) SV {
 		}
 		return Sc{"Int", sInt(int64(vc.eng.tagOf(t)))}
 	case "box":
-		// box(x): the interface value holding concrete x (type from a preceding EAs or typed var)
-		e.fail("box() not supported; compare projections instead")
+		// box(x): the interface value holding the concrete struct value x
+		v := e.eval(n.Args[0])
+		st, ok := v.(St)
+		if !ok || st.Typ == nil {
+			if sc, isVal := v.(Sc); isVal && sc.S == "Val" {
+				return sc
+			}
+			e.fail("box() needs a value of a named struct type")
+		}
+		return vc.makeInterface(st.Typ, st)
+	case "mkval":
+		// mkval(pkg.Type, leaf, ...): the interface value holding a Type built from the given components
+		tn := typeNameOf(n.Args[0])
+		t, err := vc.eng.resolveType(tn, e.pkg)
+		if err != nil {
+			e.fail("%v", err)
+		}
+		var ls []string
+		for _, a := range n.Args[1:] {
+			ls = append(ls, toLeaves(e.eval(a))...)
+		}
+		if len(ls) != len(sortsOf(t)) {
+			e.fail("mkval(%s): %d components needed, %d given", tn, len(sortsOf(t)), len(ls))
+		}
+		return vc.makeInterface(t, mkSV(t, ls))
 	case "has":
 		m, ok := e.eval(n.Args[0]).(mapSV)
 		if !ok {
